@@ -58,6 +58,26 @@ type Conn struct {
 	readErr  error
 	taken    int
 	eofTaken bool
+	cw       *countWriter
+	sent     []SentRec
+}
+
+// SentRec is one packet the scripted client has written completely (ground truth for the broker's statistics).
+type SentRec struct {
+	Type  byte // MQTT control packet type
+	Bytes int  // encoded size
+	Qos   byte // PUBLISH only
+}
+
+type countWriter struct {
+	w net.Conn
+	n int
+}
+
+func (c *countWriter) Write(b []byte) (int, error) {
+	n, err := c.w.Write(b)
+	c.n += n
+	return n, err
 }
 
 // NewBroker starts a broker with the given config and options (plugins, hooks…).
@@ -100,7 +120,8 @@ func (b *Broker) Dial(name string) (*Conn, error) {
 	if err != nil {
 		return nil, err
 	}
-	c := &Conn{Name: name, c: nc, w: packets.NewWriter(nc), Version: packets.Version311}
+	cw := &countWriter{w: nc}
+	c := &Conn{Name: name, c: nc, w: packets.NewWriter(cw), cw: cw, Version: packets.Version311}
 	b.Conns[name] = c
 	return c, nil
 }
@@ -129,13 +150,80 @@ func (c *Conn) readLoop() {
 // Send writes one packet (blocks until the broker's read loop has consumed it).
 func (c *Conn) Send(p packets.Packet) error {
 	c.c.SetWriteDeadline(time.Now().Add(3 * time.Second))
-	return c.w.WriteAndFlush(p)
+	before := c.cw.n
+	err := c.w.WriteAndFlush(p)
+	if err == nil {
+		r := SentRec{Type: PacketType(p), Bytes: c.cw.n - before}
+		if pub, ok := p.(*packets.Publish); ok {
+			r.Qos = pub.Qos
+		}
+		c.mu.Lock()
+		c.sent = append(c.sent, r)
+		c.mu.Unlock()
+	}
+	return err
+}
+
+// PacketType returns the MQTT control packet type of p (0 if unknown).
+func PacketType(p packets.Packet) byte {
+	switch p.(type) {
+	case *packets.Connect:
+		return packets.CONNECT
+	case *packets.Connack:
+		return packets.CONNACK
+	case *packets.Publish:
+		return packets.PUBLISH
+	case *packets.Puback:
+		return packets.PUBACK
+	case *packets.Pubrec:
+		return packets.PUBREC
+	case *packets.Pubrel:
+		return packets.PUBREL
+	case *packets.Pubcomp:
+		return packets.PUBCOMP
+	case *packets.Subscribe:
+		return packets.SUBSCRIBE
+	case *packets.Suback:
+		return packets.SUBACK
+	case *packets.Unsubscribe:
+		return packets.UNSUBSCRIBE
+	case *packets.Unsuback:
+		return packets.UNSUBACK
+	case *packets.Pingreq:
+		return packets.PINGREQ
+	case *packets.Pingresp:
+		return packets.PINGRESP
+	case *packets.Disconnect:
+		return packets.DISCONNECT
+	case *packets.Auth:
+		return packets.AUTH
+	}
+	return 0
+}
+
+// Sent returns every packet written completely so far.
+func (c *Conn) Sent() []SentRec {
+	c.mu.Lock()
+	defer c.mu.Unlock()
+	return append([]SentRec(nil), c.sent...)
+}
+
+// Received returns every packet decoded so far (independent of Take).
+func (c *Conn) Received() []*mqttcli.Packet {
+	c.mu.Lock()
+	defer c.mu.Unlock()
+	return append([]*mqttcli.Packet(nil), c.recv...)
 }
 
 // SendRaw writes raw bytes.
 func (c *Conn) SendRaw(b []byte) error {
 	c.c.SetWriteDeadline(time.Now().Add(3 * time.Second))
 	_, err := c.c.Write(b)
+	if err == nil && len(b) > 0 {
+		c.mu.Lock()
+		c.sent = append(c.sent, SentRec{Type: b[0] >> 4, Bytes: len(b), Qos: (b[0] >> 1) & 3})
+		c.mu.Unlock()
+	}
 	return err
 }
 
